@@ -15,7 +15,7 @@ from ..gen.vcfgen import CallSet, Record, gt
 LEVEL = "exploration"
 NEEDS = ["cli", "shim"]
 RULE = ("call sets (1-40 samples, 0-300 records; a fifth of them with a ploidy error somewhere, so that failing runs are compared too) x "
-        "configurations drawn from container {vcf, vcf.gz, bcf, raw bcf} x transport {path, stdin} x --threads {1,2,3,4,8,16} x BGZF layout {single, "
+        "configurations drawn from container {vcf, vcf.gz, bcf, raw bcf} x transport {path (file names with conventional, unconventional and misleading extensions), stdin} x --threads {1,2,3,4,8,16} x BGZF layout {single, "
         "one record per block, random cuts, mid-record cuts, stored blocks, empty blocks incl. a leading one, doubled EOF, 7-byte blocks, a 1-2 byte first block, non-default MTIME/XFL/OS header bytes} x sample map; plus "
         "repetitions of one configuration, stdin fed through a pipe with a tiny first write, environment changes (LANG, LC_ALL, TZ, HOME unset, cwd, RUST_LOG, NO_COLOR), `taskset -c 0` with 16 "
         "threads and per-read() delays. Verdict: all runs of a call set have the same (exit status, stdout bytes). Non-trivial: a call set with "
@@ -73,10 +73,11 @@ def one_run(data, smap, project, via, threads, env=None, taskset=False, delay=No
     if smap is not None:
         a += ["-s", ",".join(s if q is None else "%s=%s" % (s, q) for s, q in smap)]
     if project is not None:
-        a += ["--project-shape", ",".join(str(m + 1) for m in project), "--precision", "12"]
+        a += ["--project-shape", ",".join(str(m + 1) for m in project), "--precision", "17"]
     a += ["-t", str(threads)]
-    if via == "path":
-        return cli.sfs(a + [E.tmpfile(data)], env=args_env, exe=exe, timeout=120)
+    if via.startswith("path"):
+        # the file NAME is not part of the call data either: conventional, unconventional and misleading extensions
+        return cli.sfs(a + [E.tmpfile(data, via[4:])], env=args_env, exe=exe, timeout=120)
     return cli.sfs(a, stdin=data, env=args_env, exe=exe, timeout=120)
 
 
@@ -137,6 +138,8 @@ def shard(S, p):
                 configs.append((container, via, rng.choice(THREADS), rng.choice(LAYOUTS)))
         while len(configs) < p["configs"]:
             configs.append((rng.choice(["vcf.gz", "bcf", "vcf.gz", "bcf", "vcf", "rawbcf"]), rng.choice(["path", "stdin"]), rng.choice(THREADS), rng.choice(LAYOUTS)))
+        exts = ["", ".vcf", ".vcf.gz", ".bcf", ".bcf.gz", ".gz", ".bgz", ".txt", ".sfs"]
+        configs = [(c_, (v_ + rng.choice(exts)) if v_ == "path" else v_, t_, l_) for c_, v_, t_, l_ in configs]
         for container, via, t, layout in configs:
             data = enc(container, layout)
             record("%s[%s]/%s/t%d" % (container, layout if container in ("vcf.gz", "bcf") else "-", via, t), one_run(data, smap, project, via, t), data)
@@ -163,7 +166,7 @@ def shard(S, p):
             if smap is not None:
                 a += ["-s", ",".join(s_ if q is None else "%s=%s" % (s_, q) for s_, q in smap)]
             if project is not None:
-                a += ["--project-shape", ",".join(str(m + 1) for m in project), "--precision", "12"]
+                a += ["--project-shape", ",".join(str(m + 1) for m in project), "--precision", "17"]
             record("%s/stdin-dribble(first write %d bytes)/t2" % (container2, firstw), cli.sfs_dribble(a + ["-t", "2"], d2, first=firstw), d2)
             S.count("dribbled_stdin_runs")
         for delay in (50, 400):
